@@ -11,7 +11,7 @@ T = {
          "Trusts the kernel's loopback of local multicast on eth0, per-sender ordering on loopback, and the membership model of Linux source filters (operations that trigger the kernel's mode switch on an empty source list are not generated); known finding loop-getter-initial is probed and excluded.",
          "model-based and round-trip property-based testing over real UDP/multicast sockets (rapid)", "DESIGN.md §4 C12"),
  "C13": ("fault_enumeration",
-         "Fault enumeration plus property testing: (a) for every constructor the k-th descriptor allocation is made to fail with EMFILE for every k below what success needs (descriptor table filled, k slots freed), plus refused/conflicting/unroutable/failing-option/bad-response faults, each followed by a /proc/self/fd census comparison - the table is enumerated completely; (b) rapid-generated histories of repeated Close interleaved with creation of other objects check that only owned descriptors are ever closed (census + inode identity of every other live object); (c) rapid-generated garbage-collection points while reads and/or writes are deferred and the program holds no reference (finalizer sentinels captured by the callbacks); (d) websocket sessions on one Stream ended with CloseNextLayer and restarted from inside or after the cancelled callbacks: the ended session's socket must be gone, the next one's open and usable.",
+         "Fault enumeration plus property testing: (a) for every constructor the k-th descriptor allocation is made to fail with EMFILE for every k below what success needs (descriptor table filled, k slots freed), plus refused/conflicting/unroutable/failing-option/bad-response faults, each followed by a /proc/self/fd census comparison - the table is enumerated completely; (b) rapid-generated histories of repeated Close interleaved with creation of other objects check that only owned descriptors are ever closed (census + inode identity of every other live object); (c) rapid-generated garbage-collection points while reads and/or writes are deferred and the program holds no reference (finalizer sentinels captured by the callbacks); (d) chains of objects each created inside the completion callback of its predecessor, which closes itself there (the new object gets the recycled descriptor number); (e) websocket sessions on one Stream ended with CloseNextLayer and restarted from inside or after the cancelled callbacks: the ended session's socket must be gone, the next one's open and usable.",
          "Trusts /proc/self/fd, fstat inode identity and Go finalizers after forced double collection; websocket handshakes are explored with EMFILE at k=0 only (an in-process server competes for freed slots otherwise); GC points are sampled at operation boundaries.",
          "fault enumeration (EMFILE at the k-th allocation, protocol faults) + stateful property-based testing (rapid)", "DESIGN.md §4 C13"),
  "C17": ("exploration",
@@ -43,7 +43,7 @@ T = {
          "Real time cannot be virtualised without rewriting the code under test: tolerance 50 us, liveness margin 5 ms; load only lengthens sleeps (safe direction).",
          "stateful property-based testing with a per-schedule reference model (rapid)", "DESIGN.md §4 C04"),
  "C14": ("exploration",
-         "Property testing (rapid): generated chains (up to 200 links) of immediately completable operations over a mix of object kinds, each link issued from the previous completion; harness nesting counter, per-link results by construction, IO.Dispatched at rest and a PollOne budget are checked; operations that must wait are started, and pending operations of other objects cancelled, from inside a chain at a generated depth. Bounded search.",
+         "Property testing (rapid): generated chains (up to 200 links) of immediately completable operations over a mix of object kinds, each link issued from the previous completion; harness nesting counter, per-link results by construction, IO.Dispatched at rest and a PollOne budget are checked; operations that must wait are started, and pending operations of other objects cancelled, from inside a chain at a generated depth; chains on descriptors the poller refuses (regular file, /dev/zero) are followed with the harness's own nesting counter. Bounded search.",
          "Everything a link needs is buffered in the kernel beforehand; known finding regular-file-deferred is excluded by construction (counted) and probed separately.",
          "property-based testing of generated operation chains (rapid)", "DESIGN.md §4 C14"),
  "C06": ("exploration",
